@@ -123,32 +123,45 @@ def _build_all(clean, verbose, only=None):
     st["coq_failed"] = [f for f in files if not built(f)]
     st["coq_ok"] = not st["coq_failed"]
     st["coq_log"] = out[-20000:] if rc != 0 else ""
-    # 2. extraction of the judges that compiled
+    # 2. extraction: one judge binary per property (a judge that no longer compiles, or whose
+    #    dependencies are inconsistent, only breaks its own property)
     judges = [f for f in files if __import__("re").match(r"Judge/C\d+\.v$", f) and built(f)]
-    ex = os.path.join(BUILD, "extract")
-    os.makedirs(ex, exist_ok=True)
     names = [os.path.basename(f)[:-2] for f in judges]
-    src = "From Coq Require Extraction ExtrOcamlBasic ExtrOcamlString.\nFrom Coq Require Import String List.\n"
-    src += "From GT Require Base.Sexp %s.\nImport ListNotations.\n" % " ".join("Judge." + n for n in names)
-    src += "Definition judges : list (string * (Sexp.sexp -> Sexp.sexp -> Sexp.verdict)) :=\n  [%s].\n" % \
-           "; ".join('("%s"%%string, Judge.%s.judge)' % (n, n) for n in names)
-    src += 'Extraction "judge.ml" judges.\n'
-    deps = [os.path.join(COQ, f) + "o" for f in judges]
-    newest = max([os.path.getmtime(d) for d in deps] + [os.path.getmtime(os.path.join(VERIF, "ocaml", "main.ml"))]) if deps else 0
-    judge_bin = os.path.join(BUILD, "judge")
-    need = write_if_changed(os.path.join(ex, "Extract.v"), src) or not os.path.exists(judge_bin) \
-        or os.path.getmtime(judge_bin) < newest
-    if need and names:
+    if only:
+        names = [n for n in names if n == only]
+    st["judge_errors"] = {}
+    def build_judge(n):
+        ex = os.path.join(BUILD, "extract-" + n)
+        os.makedirs(ex, exist_ok=True)
+        src = "From Coq Require Extraction ExtrOcamlBasic ExtrOcamlString.\nFrom Coq Require Import String List.\n"
+        src += "From GT Require Base.Sexp Judge.%s.\nImport ListNotations.\n" % n
+        src += "Definition judges : list (string * (Sexp.sexp -> Sexp.sexp -> Sexp.verdict)) :=\n  [(\"%s\"%%string, Judge.%s.judge)].\n" % (n, n)
+        src += 'Extraction "judge.ml" judges.\n'
+        judge_bin = os.path.join(BUILD, "judge-" + n)
+        dep = os.path.join(COQ, "Judge", n + ".vo")
+        newest = max(os.path.getmtime(dep), os.path.getmtime(os.path.join(VERIF, "ocaml", "main.ml")))
+        need = write_if_changed(os.path.join(ex, "Extract.v"), src) or not os.path.exists(judge_bin) \
+            or os.path.getmtime(judge_bin) < newest
+        if not need:
+            return n, 0, ""
         rc, out = sh(["coqc", "-Q", COQ, "GT", "Extract.v"], cwd=ex, timeout=900)
-        say("extraction rc=%d %s" % (rc, out[-2000:] if rc else ""))
         if rc == 0:
             shutil.copyfile(os.path.join(VERIF, "ocaml", "main.ml"), os.path.join(ex, "main.ml"))
             rc, out = sh(["ocamlfind", "ocamlopt", "-w", "-a", "-O2", "judge.mli", "judge.ml", "main.ml", "-o", judge_bin + ".tmp"], cwd=ex, timeout=900)
-            say("ocamlopt rc=%d %s" % (rc, out[-2000:] if rc else ""))
             if rc == 0:
                 os.replace(judge_bin + ".tmp", judge_bin)
-        if rc != 0:
-            st["tools_ok"] = False
+        return n, rc, out[-2000:]
+    from concurrent.futures import ThreadPoolExecutor as _TPE
+    with _TPE(max_workers=8) as ex_:
+        for n, rc, out in ex_.map(build_judge, names):
+            if rc != 0:
+                say("judge %s: extraction/ocamlopt rc=%d %s" % (n, rc, out))
+                st["judge_errors"][n] = out
+                try:
+                    os.remove(os.path.join(BUILD, "judge-" + n))
+                except OSError:
+                    pass
+    names = [n for n in names if n not in st["judge_errors"]]
     st["judges"] = names
     st["log"] = "\n".join(log)
     return st
